@@ -1,9 +1,10 @@
-(* Properties/C12.v -- C12 theorems proved so far (see Spec/C12Spec.v for the full
-   statements; C12_construct / C12_decompose / C12_idem / C12_strict in their full form
-   are proved in Proofs/C12 as they land). *)
+(* Properties/C12.v -- C12 theorems (statements in Spec/C12Spec.v; proofs in Proofs/C12). *)
 From Coq Require Import List NArith ZArith Bool.
-From PyTRS Require Import Engine.Regex PyRt.Str Gen.Tables Model.Trs Spec.C12Spec Proofs.C12.Finite.
+From PyTRS Require Import Engine.Regex PyRt.Str Gen.Tables Model.Trs Spec.C12Spec Proofs.C12.Finite Proofs.C12.Full.
 Import ListNotations.
+From Coq Require String.
+Import String.StringSyntax.
+Local Open Scope string_scope.
 
 (* every township < 1000, either letter, every encoding, every default: canonical *)
 Theorem C12_twp_component :
@@ -24,3 +25,30 @@ Print Assumptions C12_sec_component.
 Theorem C12_undef : C12_undef_statement.
 Proof. unfold C12_undef_statement. vm_compute. repeat split; reflexivity. Qed.
 Print Assumptions C12_undef.
+
+(* building from components (ints, digit strings, strings with a direction letter, either case, leading zeros;
+   direction from the encoding, else the default argument, else MasterConfig) gives the canonical string *)
+Theorem C12_construct : C12_construct_statement.
+Proof. exact TRS_construct. Qed.
+Print Assumptions C12_construct.
+
+(* ... whose attributes decompose back to exactly those components *)
+Theorem C12_decompose : C12_decompose_statement.
+Proof. exact TRS_decompose. Qed.
+Print Assumptions C12_decompose.
+
+(* wrapping again is idempotent, for EVERY string (and None) *)
+Theorem C12_idem : C12_idem_statement.
+Proof. exact TRS_trs_idem. Qed.
+Print Assumptions C12_idem.
+
+(* strictness, for EVERY non-empty string *)
+Theorem C12_strict : C12_strict_statement.
+Proof. exact TRS_strict. Qed.
+Print Assumptions C12_strict.
+
+(* non-vacuity: a concrete string on each side of the strictness disjunction, and a round trip *)
+Example C12_strict_examples :
+  TRS_trs (Some (s "154N97W14")) = s "154n97w14" /\ TRS_trs (Some (s "1154n97w14")) = MC_ERR_TRS /\
+  TRS_trs (Some (s "154n97w")) = s "154n97wXX" /\ TRS_trs (Some (s "___z97w01")) = s "___z97w01".
+Proof. vm_compute. repeat split; reflexivity. Qed.
